@@ -116,7 +116,7 @@ class C10(BaseCheck):
              'scales.timer_queue:TimerQueue.Schedule')
   REQUIRED_ANCHORS = ANCHORS
   REQUIRED_CLASSES = ('new-head-while-sleeping', 'past-deadline', 'tie', 'cancel-head',
-                      'boundary', 'far-deadlines', 'deadline-exactly-on-tick', 'action-raises', 'action-blocks', 'long-schedule-history', 'many-actions-still-running', 'queue-clock-differs-from-wall-clock')
+                      'boundary', 'far-deadlines', 'deadline-exactly-on-tick', 'action-raises', 'action-blocks', 'long-schedule-history', 'many-actions-still-running', 'queue-clock-differs-from-wall-clock', 'falsy-callable-action')
   ASSUMPTIONS = ('virtual clock: no timer lateness is injected (J=0), so lateness bounds are exact',
                  'rounded deadline computed in exact rationals; actions within 2us of a grid '
                  'point are exempt from the ordering clause only')
@@ -223,6 +223,23 @@ class C10(BaseCheck):
         if how == 'block':
           races.add('action-blocks')
           gevent.sleep(rng.choice([0.3, 2.0]) * reff * 10)
+      if rng.random() < 0.08:
+        # an action that is a callable object which is false in a boolean context (an empty list of
+        # listeners that can be called, a flag-like object): an action like any other
+        races.add('falsy-callable-action')
+        if rng.random() < 0.5:
+          class _Listeners(list):
+            def __call__(self):
+              return act()
+          return _Listeners()
+
+        class _Flag(object):
+          def __bool__(self):
+            return False
+
+          def __call__(self):
+            return act()
+        return _Flag()
       return act
 
     def head_deadline():
